@@ -174,6 +174,9 @@ JAC_REPS = {
     "strided": _strided,
     "csc": lambda a: sp.csc_matrix(a),
     "csr": lambda a: sp.csr_matrix(a),
+    # integer arrays (only for Jacobians whose entries are integers: the value is the same matrix)
+    "int64": lambda a: a.astype(np.int64) if np.all(a == np.round(a)) else a,
+    "int64-F": lambda a: np.asfortranarray(a.astype(np.int64)) if np.all(a == np.round(a)) else a,
 }
 
 
